@@ -225,27 +225,55 @@ def initIO (ios : List (DiscIO V)) (xs os : List V) (k : Nat) : DiscIO V :=
 
 def unions (ls : List (List V)) : List V := ls.foldl union []
 
+/-- Disciplines having a requested input (`input_sources`). -/
+def srcIn (ios : List (DiscIO V)) (xs os : List V) : List Nat :=
+  (List.range ios.length).filter (fun i => !(initIO ios xs os i).1.isEmpty)
+
+/-- Disciplines having a requested output (`output_sources`). -/
+def srcOut (ios : List (DiscIO V)) (xs os : List V) : List Nat :=
+  (List.range ios.length).filter (fun i => !(initIO ios xs os i).2.isEmpty)
+
+/-- Disciplines reachable from an input source (tails of the edges `edge_bfs` yields). -/
+def reachF (ios : List (DiscIO V)) (xs os : List V) : List Nat :=
+  reach ios.length (hasEdge ios) ios.length (srcIn ios xs os)
+
+/-- Disciplines from which an output source is reachable (reverse view). -/
+def reachB (ios : List (DiscIO V)) (xs os : List V) : List Nat :=
+  reach ios.length (fun a b => hasEdge ios b a) ios.length (srcOut ios xs os)
+
+/-- Direct BFS: every edge `i → k` with `i` reachable from an input source adds its couplings to the
+    inputs of `k`… -/
+def dirIn (ios : List (DiscIO V)) (xs os : List V) (k : Nat) : List V :=
+  unions ((List.range ios.length).map
+    (fun i => if decide (i ∈ reachF ios xs os) then edgeIO ios i k else []))
+
+/-- …and every edge `k → j` with `k` reachable adds its couplings to the outputs of `k`. -/
+def dirOut (ios : List (DiscIO V)) (xs os : List V) (k : Nat) : List V :=
+  if decide (k ∈ reachF ios xs os) then
+    unions ((List.range ios.length).map (fun j => edgeIO ios k j))
+  else []
+
+/-- Reverse BFS: every edge `i → k` with `k` co-reachable from an output source. -/
+def revIn (ios : List (DiscIO V)) (xs os : List V) (k : Nat) : List V :=
+  if decide (k ∈ reachB ios xs os) then
+    unions ((List.range ios.length).map (fun i => edgeIO ios i k))
+  else []
+
+def revOut (ios : List (DiscIO V)) (xs os : List V) (k : Nat) : List V :=
+  unions ((List.range ios.length).map
+    (fun j => if decide (j ∈ reachB ios xs os) then edgeIO ios k j else []))
+
 /-- The differentiated (inputs, outputs) `traverse_add_diff_io` adds to discipline `k` for the
-    chain request `(xs, os)`. -/
+    chain request `(xs, os)`: `_merge_diff_ios` (intersection of the two sweeps + the special case of
+    the initial step) then `_merge_diff_io_special`. -/
 def traverseSelect (ios : List (DiscIO V)) (xs os : List V) (k : Nat) : DiscIO V :=
-  let n := ios.length
-  let idx := List.range n
-  let srcIn := idx.filter (fun i => !(initIO ios xs os i).1.isEmpty)
-  let srcOut := idx.filter (fun i => !(initIO ios xs os i).2.isEmpty)
-  let rf := reach n (hasEdge ios) n srcIn
-  let rb := reach n (fun a b => hasEdge ios b a) n srcOut
-  -- direct BFS: every edge i → j with i reachable from an input source
-  let dirIn := unions (idx.map (fun i => if decide (i ∈ rf) then edgeIO ios i k else []))
-  let dirOut := if decide (k ∈ rf) then unions (idx.map (fun j => edgeIO ios k j)) else []
-  -- reverse BFS: every edge i → j with j co-reachable from an output source
-  let revIn := if decide (k ∈ rb) then unions (idx.map (fun i => edgeIO ios i k)) else []
-  let revOut := unions (idx.map (fun j => if decide (j ∈ rb) then edgeIO ios k j else []))
-  let mIn := inter dirIn revIn
-  let mOut := inter dirOut revOut
+  let mIn := inter (dirIn ios xs os k) (revIn ios xs os k)
+  let mOut := inter (dirOut ios xs os k) (revOut ios xs os k)
   let ini := initIO ios xs os k
   let in1 := if !mOut.isEmpty then union mIn ini.1 else mIn
   let out1 := if !mIn.isEmpty then union mOut ini.2 else mOut
-  if decide (k ∈ srcIn) && decide (k ∈ srcOut) then (union in1 ini.1, union out1 ini.2)
+  if decide (k ∈ srcIn ios xs os) && decide (k ∈ srcOut ios xs os) then
+    (union in1 ini.1, union out1 ini.2)
   else (in1, out1)
 
 /-- Same set of names (Python `set` equality of `_last_diff_inouts`). -/
@@ -263,12 +291,14 @@ def ChainState.init (n : Nat) : ChainState V := ⟨none, List.replicate n ([], [
 /-- `_compute_diff_in_outs`: traverse unless the request is the one of the previous call; the
     selections are added (`add_differentiated_inputs/outputs` take unions). Returns the new state
     and, per discipline, what was added by this call. -/
+def ChainState.sameAsLast (st : ChainState V) (xs os : List V) : Bool :=
+  match st.last with
+  | some (lx, lo) => sameSet lx xs && sameSet lo os
+  | none => false
+
 def ChainState.request (ios : List (DiscIO V)) (st : ChainState V) (xs os : List V) :
     ChainState V × List (DiscIO V) :=
-  let same := match st.last with
-    | some (lx, lo) => sameSet lx xs && sameSet lo os
-    | none => false
-  if same then (st, List.replicate ios.length ([], []))
+  if st.sameAsLast xs os then (st, List.replicate ios.length ([], []))
   else
     let added := (List.range ios.length).map (traverseSelect ios xs os)
     let sel := (st.sel.zip added).map (fun p => (union p.1.1 p.2.1, union p.1.2 p.2.2))
